@@ -10,6 +10,7 @@ mod c08;
 mod c09;
 mod c10;
 mod c14;
+mod c15;
 mod c16;
 mod c18;
 mod c19;
@@ -39,6 +40,7 @@ pub fn replay_dispatch(prop: &str, layer: &str, case: &serde_json::Value) -> Res
         "C09" => c09::replay(layer, case),
         "C10" => c10::replay(layer, case),
         "C14" => c14::replay(layer, case),
+        "C15" => c15::replay(layer, case),
         "C16" => c16::replay(layer, case),
         "C18" => c18::replay(layer, case),
         "C19" => c19::replay(layer, case),
@@ -143,6 +145,7 @@ fn main() {
         "C09" => c09::run(&mut run, &ctx),
         "C10" => c10::run(&mut run, &ctx),
         "C14" => c14::run(&mut run, &ctx),
+        "C15" => c15::run(&mut run, &ctx),
         "C16" => c16::run(&mut run, &ctx),
         "C18" => c18::run(&mut run, &ctx),
         "C19" => c19::run(&mut run, &ctx),
